@@ -62,3 +62,57 @@ def c02(run):
     trace, _ = run.exec("C02", cases=cases)
     run.validate("Trace_AddressCodec", trace)
     return finish(run, assumptions=ADDR_ASSUME)
+
+
+# --------------------------------------------------------------------------- C03
+@prop("C03", "Trace_ChecksumCodes")
+def c03(run):
+    """Minimum-distance proof by exhaustive syndrome enumeration (TLC states), on the design's
+    generator and again on the implementation's own syndrome table; affinity events tie the
+    table to the implementation's whole remainder map; black-box corrupted strings are judged
+    by the strict decoders."""
+    run.build()
+    # 1. implementation tables + affinity events (verif hooks)
+    trace_t, _ = run.exec("C03table", args="out=" + run.dir, trace_name="trace-C03table.ndjson")
+    # 2. design-level proofs
+    if run.tier == "thorough":
+        design = ["MC_CC_cash_112_5.cfg", "MC_CC_bech_89_4.cfg"]
+    else:
+        design = ["MC_CC_cash_42_5.cfg"]
+    for cfg in design:
+        r = run.mc("ChecksumCodes", cfg)
+        if r["generated"] != r["distinct"]:
+            raise pipeline.Infra("design-level code has a low-weight codeword (%s): %d generated, %d distinct" % (cfg, r["generated"], r["distinct"]))
+    # 3. the same proof on the implementation's table
+    impl_viol = []
+    for cfg, tab in (("MC_CCI_cash_112_5.cfg", "table-cash.json"), ("MC_CCI_bech_89_4.cfg", "table-bech.json")):
+        r = run.mc("ChecksumCodes", cfg, env={"TABLE": os.path.join(run.dir, tab)}, expect_fail=True)
+        if not r["ok"]:
+            if "Invariant TableSane is violated" in r["out"]:
+                impl_viol.append((cfg, "implementation syndrome table is not that of a polynomial remainder (TableSane)"))
+            else:
+                raise pipeline.Infra("TLC failed on implementation table (%s):\n%s" % (cfg, "\n".join(r["out"].splitlines()[-30:])))
+        elif r["generated"] != r["distinct"]:
+            # a fingerprint collision could fake this: re-run with another fingerprint polynomial
+            r2 = run.mc("ChecksumCodes", cfg, env={"TABLE": os.path.join(run.dir, tab)}, extra=["-fp", "7"])
+            if r2["generated"] != r2["distinct"]:
+                impl_viol.append((cfg, "low-weight codeword: %d syndromes generated, only %d distinct" % (r2["generated"], r2["distinct"])))
+            else:
+                raise pipeline.Infra("collision did not reproduce with another fingerprint (%s)" % cfg)
+    for cfg, what in impl_viol:
+        os.makedirs(os.path.join(pipeline.VERIF, "replay"), exist_ok=True)
+        path = os.path.join(pipeline.VERIF, "replay", "C03-%s-%d-table-%s.json" % (run.tier, run.seed, cfg.split("_")[2]))
+        with open(path, "w") as f:
+            json.dump({"property": "C03", "clause": "minimum-distance-on-implementation-table", "cfg": cfg, "what": what,
+                       "table": json.load(open(os.path.join(run.dir, "table-cash.json" if "cash" in cfg else "table-bech.json")))}, f)
+        print("VIOLATION property=C03 replay=%s" % path)
+        print("  " + what)
+    # 4. trace validation
+    run.validate("Trace_ChecksumCodes", trace_t)
+    trace, _ = run.exec("C03")
+    run.validate("Trace_ChecksumCodes", trace)
+    rc = finish(run, assumptions=ADDR_ASSUME + [
+        "minimum distance is proved for windows of 112 (CashAddr, <= 5 errors) and 89 (bech32, <= 4 errors) symbols counted from the end of the string, which covers every shorter length and every prefix",
+        "the implementation's remainder map is tied to its syndrome table by sampled affinity / superposition events (not exhaustively)"],
+        extra_cov={"proof": "distinct TLC states = generated states over all syndromes of weight <= 3 (left) and <= 2 (right)"})
+    return 1 if impl_viol else rc
